@@ -618,6 +618,9 @@ struct GkCase {
     salt: u32,
     /// skip fault enumeration and regrouping (huge cases)
     light: bool,
+    /// fixed known-finding cases: the two listed grouping findings are reported instead of being tolerated
+    #[serde(default)]
+    raw: bool,
 }
 
 struct BuiltPatch {
@@ -645,6 +648,7 @@ struct Scenario {
     compat: [u32; 4],
     compat_x: [u32; 4],
     def_cps: Vec<u32>,
+    raw: bool,
 }
 
 fn cff_prefixes() -> &'static (Vec<u8>, Vec<u8>) {
@@ -785,7 +789,7 @@ impl Scenario {
             }
         }
         // --- data
-        let base_glyphs: Vec<Vec<Vec<u8>>> = (0..nk).map(|t| (0..n).map(|g| pat(salt(1, kinds[t] as u64, g as u64), base_len[t][g])).collect()).collect();
+        let base_glyphs: Vec<Vec<Vec<u8>>> =(0..nk).map(|t| (0..n).map(|g| pat(salt(1, kinds[t] as u64, g as u64), base_len[t][g])).collect()).collect();
         let new_data: Vec<BTreeMap<u32, Vec<u8>>> = (0..nk).map(|t| new_len[t].iter().map(|(g, l)| (*g, pat(salt(2, kinds[t] as u64, *g as u64), *l))).collect()).collect();
         // --- base tables
         let mut base_fmt = vec![];
@@ -916,7 +920,7 @@ impl Scenario {
             let flag_pos = encs[iftx as usize].as_ref().unwrap().flag_pos[j];
             patches.push(BuiltPatch { gids: pgids[p].clone(), tables: ptables[p].clone(), bytes, raw_len: raw.len(), iftx, cp, flag_pos, uri: String::new() });
         }
-        Ok(Scenario { n, kinds, cs_off, version, base_tables, font, base_glyphs, base_fmt, new_data, patches, compat, compat_x, def_cps })
+        Ok(Scenario { n, kinds, cs_off, version, base_tables, font, base_glyphs, base_fmt, new_data, patches, compat, compat_x, def_cps, raw: c.raw })
     }
 
     fn sibling_font(&self) -> Vec<u8> {
@@ -935,6 +939,8 @@ struct Decoded {
     glyphs: Vec<Vec<Vec<u8>>>,
     fmt: Vec<Fmt>,
     gvar: Option<([usize; 5], Vec<u8>)>,
+    /// every offset-width change so far follows 'never narrow, widen to the first sufficient width'
+    explained: bool,
 }
 impl Scenario {
     fn decode(&self, tables: Tables, what: &str) -> Result<Decoded, Fail> {
@@ -965,7 +971,7 @@ impl Scenario {
                 }
             }
         }
-        Ok(Decoded { tables, glyphs, fmt, gvar: gv })
+        Ok(Decoded { tables, glyphs, fmt, gvar: gv, explained: true })
     }
 
     /// tables touched by the patches `now` (indices into kinds)
@@ -995,6 +1001,52 @@ impl Scenario {
         false
     }
 
+    /// glyph set replaced in table t by the patches `now`
+    fn replaced(&self, t: usize, now: &[usize]) -> BTreeSet<u32> {
+        now.iter().filter(|p| self.patches[**p].tables.contains(&t)).flat_map(|p| self.patches[*p].gids.iter().copied()).collect()
+    }
+    /// size of table t's glyph data after applying `now` (padded when the offsets before are short)
+    fn new_total(&self, before: &Decoded, t: usize, now: &[usize]) -> usize {
+        let rep = self.replaced(t, now);
+        let short = before.fmt[t] == Fmt::Short;
+        (0..self.n)
+            .map(|g| match rep.contains(&(g as u32)) {
+                true => {
+                    let l = self.new_data[t][&(g as u32)].len();
+                    if short {
+                        l + (l & 1)
+                    } else {
+                        l
+                    }
+                }
+                false => before.glyphs[t][g].len(),
+            })
+            .sum()
+    }
+    /// offset widths after the step under the policy 'keep unless too small, then the first sufficient one'
+    fn predict_fmt(&self, before: &Decoded, now: &[usize]) -> Vec<Fmt> {
+        let touched = self.touched(now);
+        (0..self.kinds.len())
+            .map(|t| {
+                if !touched.contains(&t) {
+                    return before.fmt[t];
+                }
+                let total = self.new_total(before, t, now);
+                match (self.kinds[t], before.fmt[t]) {
+                    (Kind::Gvar, Fmt::Short) if total > SHORT_MAX => Fmt::Long,
+                    (_, Fmt::Off(k)) => {
+                        let cap = |k: u8| (1usize << (8 * k as usize)) - 2;
+                        if total > cap(k) {
+                            Fmt::Off((1..=4u8).find(|c| cap(*c) >= total).unwrap_or(4))
+                        } else {
+                            Fmt::Off(k)
+                        }
+                    }
+                    (_, f) => f,
+                }
+            })
+            .collect()
+    }
     /// the oracle for one successful application of the patches `now` to the font decoded as `before`
     fn check_step(&self, before: &Decoded, out: &[u8], now: &[usize], what: &str) -> Result<Decoded, Fail> {
         let tabs = tables_of(out, what)?;
@@ -1026,7 +1078,8 @@ impl Scenario {
                 return Err(fail("gk|untouched-table", format!("{what}: table {} is not listed in any applied patch but changed ({})", tag_str(tag), first_diff(a, b))));
             }
         }
-        let after = self.decode(tabs, what)?;
+        let mut after = self.decode(tabs, what)?;
+        after.explained = before.explained && after.fmt == self.predict_fmt(before, now);
         for (t, k) in self.kinds.iter().enumerate() {
             if !touched.contains(&t) {
                 continue; // byte-identical, checked above
@@ -1064,4 +1117,1046 @@ impl Scenario {
         }
         Ok(after)
     }
+}
+
+// ------------------------------------------------------------------------------------------------------
+// glyph-keyed scenarios: driver and oracles
+
+fn is_overflow(e: &PatchingError) -> bool {
+    *e == PatchingError::SerializationError(SerializeErrorFlags::SERIALIZE_ERROR_OFFSET_OVERFLOW)
+}
+fn discover(font: &FontRef, cp: u32, what: &str) -> Result<PatchUri, Fail> {
+    let def = SubsetDefinition::codepoints([cp].into_iter().collect());
+    let mut v = intersecting_patches(font, &def).map_err(|e| fail("select|query", format!("{what}: intersecting_patches failed: {e}")))?;
+    if v.len() != 1 {
+        return Err(fail("select|query", format!("{what}: code point {cp:#x} belongs to exactly one unapplied entry, got {} patches", v.len())));
+    }
+    Ok(v.pop().unwrap())
+}
+fn info_of(u: PatchUri) -> Result<PatchInfo, Fail> {
+    PatchInfo::try_from(u).map_err(|_| fail("select|query", "PatchInfo::try_from failed on a valid template"))
+}
+fn permutation(n: usize, seed: u64) -> Vec<usize> {
+    let mut v: Vec<usize> = (0..n).collect();
+    let mut p = seed;
+    for i in (1..n).rev() {
+        p = p.wrapping_mul(6364136223846793005).wrapping_add(1442695040888963407);
+        v.swap(i, (p >> 33) as usize % (i + 1));
+    }
+    v
+}
+fn def_of(cps: impl IntoIterator<Item = u32>) -> SubsetDefinition {
+    SubsetDefinition::codepoints(cps.into_iter().collect::<IntSet<u32>>())
+}
+
+struct Gk<'a> {
+    sc: &'a Scenario,
+    stats: &'a Stats,
+}
+impl Gk<'_> {
+    fn fresh_map(&self, replace: Option<(usize, &[u8])>) -> HashMap<String, UriStatus> {
+        let mut m = HashMap::new();
+        for (i, p) in self.sc.patches.iter().enumerate() {
+            let bytes = match replace {
+                Some((j, b)) if j == i => b.to_vec(),
+                _ => p.bytes.clone(),
+            };
+            m.insert(p.uri.clone(), UriStatus::Pending(bytes));
+        }
+        m.insert("zz/unrelated".to_string(), UriStatus::Pending(vec![1, 2, 3]));
+        m.insert("zz/done".to_string(), UriStatus::Applied);
+        m
+    }
+    fn uris_of(&self, set: &[usize]) -> Vec<String> {
+        let mut v: Vec<String> = set.iter().map(|p| self.sc.patches[*p].uri.clone()).collect();
+        v.sort();
+        v
+    }
+    /// select on `font` with `def`, require exactly the URIs of `expect`, apply with `dec`
+    fn group_apply(&self, font: &[u8], def: &SubsetDefinition, expect: &[usize], map: &mut HashMap<String, UriStatus>, dec: &Dec, what: &str) -> Result<Result<Vec<u8>, PatchingError>, Fail> {
+        let f = FontRef::new(font).map_err(|e| fail("reopen", format!("{what}: {e}")))?;
+        let group = guarded(|| PatchGroup::select_next_patches(f, def))?.map_err(|e| fail("select|group", format!("{what}: select_next_patches failed: {e}")))?;
+        let mut got: Vec<String> = group.uris().map(|s| s.to_string()).collect();
+        got.sort();
+        let want = self.uris_of(expect);
+        if got != want {
+            return Err(fail("select|group", format!("{what}: the group offers {got:?}, the unapplied requested glyph-keyed entries are {want:?}")));
+        }
+        self.stats.evals(1);
+        guarded(|| group.apply_next_patches_with_decoder(map, dec))
+    }
+    /// low-level application of the patches `order` (in that order), PatchInfos taken from `info_font`
+    fn low_apply(&self, font: &[u8], info_font: &[u8], order: &[usize], replace: Option<(usize, &[u8])>, dec: &Dec, what: &str) -> Result<Result<Vec<u8>, PatchingError>, Fail> {
+        let f = FontRef::new(font).map_err(|e| fail("reopen", format!("{what}: {e}")))?;
+        let fi = FontRef::new(info_font).map_err(|e| fail("reopen", format!("{what}: {e}")))?;
+        let mut infos = vec![];
+        for p in order {
+            infos.push(info_of(discover(&fi, self.sc.patches[*p].cp, what)?)?);
+        }
+        let datas: Vec<&[u8]> = order
+            .iter()
+            .map(|p| match replace {
+                Some((j, b)) if j == *p => b,
+                _ => &self.sc.patches[*p].bytes[..],
+            })
+            .collect();
+        self.stats.evals(1);
+        guarded(|| f.apply_glyph_keyed_patches(infos.iter().zip(datas.iter().copied()), dec))
+    }
+    fn expect_failure(&self, r: Result<Vec<u8>, PatchingError>, map: Option<(&HashMap<String, UriStatus>, &Snap)>, sig: &str, what: &str) -> CaseResult {
+        if r.is_ok() {
+            return Err(fail(&format!("{sig}|not-an-error"), format!("{what}: the application returned Ok")));
+        }
+        if let Some((m, before)) = map {
+            if snap(m) != *before {
+                return Err(fail(&format!("{sig}|bookkeeping"), format!("{what}: the application failed ({}) but the caller's URI status map changed", r.err().unwrap())));
+            }
+        }
+        Ok(())
+    }
+    fn applied_snap(&self, before: &Snap, set: &[usize]) -> Snap {
+        let mut s = before.clone();
+        for p in set {
+            s.insert(self.sc.patches[*p].uri.clone(), None);
+        }
+        s
+    }
+    fn compare_final(&self, full: &Decoded, other: &Decoded, what: &str) -> CaseResult {
+        if full.tables == other.tables {
+            return Ok(());
+        }
+        // The tables differ. Two listed findings explain some differences exactly; anything else is a violation.
+        let sc = self.sc;
+        let (mut width, mut padding) = (false, false);
+        for (tag, d) in &full.tables {
+            if other.tables.get(tag).map(|o| norm(tag, o)) == Some(norm(tag, d)) {
+                continue; // equal up to head.checksumAdjustment, which is a function of the other tables
+            }
+            let name = tag_str(tag);
+            let t = match sc.kinds.iter().position(|k| k.tag() == *tag) {
+                Some(t) if sc.kinds[t] != Kind::Glyf => t,
+                _ => return Err(fail("order|content", format!("{what}: table {name} differs from the all-at-once application"))),
+            };
+            let mut pad_here = false;
+            for g in 0..sc.n {
+                let (a, b) = (&full.glyphs[t][g], &other.glyphs[t][g]);
+                if a != b {
+                    let explained = sc.kinds[t] == Kind::Gvar
+                        && sc.new_data[t]
+                            .get(&(g as u32))
+                            .map(|nd| {
+                                let mut p = nd.clone();
+                                p.push(0);
+                                nd.len() % 2 == 1 && ((a == nd && *b == p) || (b == nd && *a == p))
+                            })
+                            .unwrap_or(false);
+                    if !explained {
+                        return Err(fail("order|content", format!("{what}: {name} glyph {g} differs from the all-at-once application ({})", first_diff(a, b))));
+                    }
+                    pad_here = true;
+                }
+            }
+            let width_here = full.fmt[t] != other.fmt[t];
+            if width_here && !(full.explained && other.explained) {
+                return Err(fail("order|representation", format!("{what}: {name} offset widths {:?} vs {:?} not explained by the sizes passed through", full.fmt[t], other.fmt[t])));
+            }
+            if !width_here && !pad_here {
+                return Err(fail("order|representation", format!("{what}: {name} decodes to the same glyph data with the same offset width but differs in bytes")));
+            }
+            width |= width_here;
+            padding |= pad_here;
+        }
+        if !sc.raw {
+            if width {
+                self.stats.class("excluded_known:offset-width-depends-on-grouping");
+            }
+            if padding {
+                self.stats.class("excluded_known:gvar-padding-depends-on-grouping");
+            }
+            return Ok(());
+        }
+        if padding {
+            return Err(fail("order|gvar-padding-depends-on-grouping", format!("{what}: odd-length gvar data is zero-padded when written under short offsets and not when the same step widens to long offsets; the bytes stay after a later widening (offset formats {:?} vs {:?})", full.fmt, other.fmt)));
+        }
+        Err(fail("order|offset-width-depends-on-grouping", format!("{what}: same glyph data as the all-at-once application, offset widths {:?} vs {:?}: an intermediate font needed the wider offsets and widths are never narrowed", full.fmt, other.fmt)))
+    }
+    /// apply `groups` one after the other; Ok(None) when an intermediate font is not representable (short loca)
+    fn sequence(&self, groups: &[Vec<usize>], via_group: bool, what: &str) -> Result<Option<Decoded>, Fail> {
+        let sc = self.sc;
+        let mut cur_font = sc.font.clone();
+        let mut cur = sc.decode(tables_of(&cur_font, what)?, what)?;
+        let mut map = self.fresh_map(None);
+        let mut cps: Vec<u32> = vec![0x51];
+        for (j, members) in groups.iter().enumerate() {
+            let w = format!("{what}, step {j} {members:?}");
+            let ovf = sc.expect_overflow(&cur, members);
+            let before = snap(&map);
+            let r = if via_group {
+                cps.extend(members.iter().map(|p| sc.patches[*p].cp));
+                self.group_apply(&cur_font, &def_of(cps.iter().copied()), members, &mut map, &Dec::ok(), &w)?
+            } else {
+                self.low_apply(&cur_font, &cur_font, members, None, &Dec::ok(), &w)?
+            };
+            match (r, ovf) {
+                (Ok(out), false) => {
+                    cur = sc.check_step(&cur, &out, members, &w)?;
+                    cur_font = out;
+                    if via_group && snap(&map) != self.applied_snap(&before, members) {
+                        return Err(fail("gk|bookkeeping-on-success", format!("{w}: after success exactly the applied URIs become Applied")));
+                    }
+                }
+                (Ok(_), true) => return Err(fail("gk|overflow-not-refused", format!("{w}: new glyf data exceeds the short loca range, expected Err(OFFSET_OVERFLOW)"))),
+                (Err(e), true) => {
+                    if !is_overflow(&e) {
+                        return Err(fail("gk|overflow-error-kind", format!("{w}: expected Err(SerializationError(OFFSET_OVERFLOW)), got {e:?}")));
+                    }
+                    if via_group && snap(&map) != before {
+                        return Err(fail("gk|overflow|bookkeeping", format!("{w}: failed but the URI status map changed")));
+                    }
+                    self.stats.class("order:intermediate-not-representable");
+                    return Ok(None);
+                }
+                (Err(e), false) => return Err(fail("gk|unexpected-error", format!("{w}: {e:?}"))),
+            }
+        }
+        Ok(Some(cur))
+    }
+}
+
+fn test_gk(c: &GkCase, stats: &Stats) -> CaseResult {
+    let mut sc = Scenario::build(c)?;
+    let base = sc.decode(tables_of(&sc.font, "base")?, "base")?;
+    if base.glyphs != sc.base_glyphs || base.fmt != sc.base_fmt {
+        return Err(fail("setup|base-decode", "harness: the base font does not decode to the generated glyph data"));
+    }
+    {
+        let font = FontRef::new(&sc.font).map_err(|e| fail("setup", format!("base font: {e}")))?;
+        let mut seen = BTreeSet::new();
+        for i in 0..sc.patches.len() {
+            let u = discover(&font, sc.patches[i].cp, "base")?.uri_string().map_err(|_| fail("select|query", "uri_string failed"))?;
+            if !seen.insert(u.clone()) {
+                return Err(fail("select|query", format!("two entries share the URI {u}")));
+            }
+            sc.patches[i].uri = u;
+        }
+    }
+    let sc = &sc;
+    let gk = Gk { sc, stats };
+    let np = sc.patches.len();
+    let all: Vec<usize> = (0..np).collect();
+    let def = def_of(sc.def_cps.iter().copied());
+    let ovf = sc.expect_overflow(&base, &all);
+
+    // (1) all at once through PatchGroup
+    let mut map = gk.fresh_map(None);
+    let before = snap(&map);
+    let dec = Dec::ok();
+    let r = gk.group_apply(&sc.font, &def, &all, &mut map, &dec, "all-at-once")?;
+    let calls = dec.calls.get();
+    let full: Option<(Vec<u8>, Decoded)> = match (r, ovf) {
+        (Ok(out), false) => {
+            let d = sc.check_step(&base, &out, &all, "all-at-once")?;
+            if snap(&map) != gk.applied_snap(&before, &all) {
+                return Err(fail("gk|bookkeeping-on-success", "all-at-once: after success exactly the applied URIs become Applied"));
+            }
+            Some((out, d))
+        }
+        (Ok(_), true) => return Err(fail("gk|overflow-not-refused", "all-at-once: new glyf data exceeds the short loca range, expected Err(OFFSET_OVERFLOW)")),
+        (Err(e), true) => {
+            if !is_overflow(&e) {
+                return Err(fail("gk|overflow-error-kind", format!("all-at-once: expected Err(SerializationError(OFFSET_OVERFLOW)), got {e:?}")));
+            }
+            if snap(&map) != before {
+                return Err(fail("gk|overflow|bookkeeping", "all-at-once: failed but the URI status map changed"));
+            }
+            None
+        }
+        (Err(e), false) => return Err(fail("gk|unexpected-error", format!("all-at-once: {e:?}"))),
+    };
+
+    // (2) low-level API, listed and permuted order
+    let perm = permutation(np, c.perm);
+    for (order, what) in [(&all, "low-level listed order"), (&perm, "low-level permuted order")] {
+        match (gk.low_apply(&sc.font, &sc.font, order, None, &Dec::ok(), what)?, &full) {
+            (Ok(out), Some((fo, fd))) => {
+                if out != *fo {
+                    let d = sc.check_step(&base, &out, &all, what)?;
+                    gk.compare_final(fd, &d, what)?;
+                    return Err(fail("order|container", format!("{what}: same tables, different file bytes")));
+                }
+            }
+            (Err(e), None) if is_overflow(&e) => {}
+            (r, _) => return Err(fail("order|outcome", format!("{what}: outcome {:?} differs from the PatchGroup application ({})", r.map(|b| b.len()), if full.is_some() { "Ok" } else { "overflow error" }))),
+        }
+    }
+    if perm != all {
+        stats.class("order:permuted");
+    }
+
+    let mut max_k = 0usize;
+    if !c.light {
+        // (3) decoder fault at call k with every error kind
+        for k in 0..calls {
+            for (i, ek) in ALL_EK.iter().enumerate() {
+                let mut map = gk.fresh_map(None);
+                let before = snap(&map);
+                let what = format!("decoder fails at call {k} with {ek:?}");
+                let r = gk.group_apply(&sc.font, &def, &all, &mut map, &Dec::failing(k, *ek), &what)?;
+                gk.expect_failure(r, Some((&map, &before)), "fault", &what)?;
+                if (i + k) % ALL_EK.len() == 0 {
+                    let r = gk.low_apply(&sc.font, &sc.font, &perm, None, &Dec::failing(k, *ek), &what)?;
+                    gk.expect_failure(r, None, "fault|low-level", &what)?;
+                }
+            }
+            max_k = k;
+        }
+        stats.class_n("faults-injected", (calls * ALL_EK.len()) as u64);
+
+        // (4) compatibility id mismatch
+        let j = c.bad.0 as usize % np;
+        let mut bad = sc.patches[j].bytes.clone();
+        let pos = compat_pos(&bad);
+        if c.bad.2 % 2 == 0 {
+            bad[pos + (c.bad.1 as usize % 16)] ^= 1 << (c.bad.2 % 8);
+        } else {
+            let other = if sc.patches[j].iftx { sc.compat } else { sc.compat_x };
+            for (w, x) in other.iter().enumerate() {
+                bad[pos + 4 * w..pos + 4 * w + 4].copy_from_slice(&x.to_be_bytes());
+            }
+        }
+        let mut map = gk.fresh_map(Some((j, &bad)));
+        let before = snap(&map);
+        let what = format!("patch {j} carries a different compatibility id");
+        let d = Dec::ok();
+        let r = gk.group_apply(&sc.font, &def, &all, &mut map, &d, &what)?;
+        gk.expect_failure(r, Some((&map, &before)), "compat", &what)?;
+        let r = gk.low_apply(&sc.font, &sc.font, &perm, Some((j, &bad)), &Dec::ok(), &what)?;
+        gk.expect_failure(r, None, "compat|low-level", &what)?;
+        let sib = sc.sibling_font();
+        let r = gk.low_apply(&sc.font, &sib, &all, None, &Dec::ok(), "PatchInfo from a font with another compatibility id")?;
+        gk.expect_failure(r, None, "compat|foreign-info", "PatchInfo from a font with another compatibility id")?;
+        stats.class("compat-mismatch");
+
+        // (5) a decoder failure that is not injected: undersized maxUncompressedLength / malformed stream
+        let j = c.natural.0 as usize % np;
+        let mut bad = sc.patches[j].bytes.clone();
+        match c.natural.1 % 3 {
+            0 => bad[25..29].copy_from_slice(&((sc.patches[j].raw_len - 1) as u32).to_be_bytes()),
+            1 => bad[30] = b'X',
+            _ => bad[29] = b'D',
+        }
+        let mut map = gk.fresh_map(Some((j, &bad)));
+        let before = snap(&map);
+        let what = format!("patch {j} has an undecodable stream (style {})", c.natural.1 % 3);
+        let r = gk.group_apply(&sc.font, &def, &all, &mut map, &Dec::ok(), &what)?;
+        gk.expect_failure(r, Some((&map, &before)), "decode-failure", &what)?;
+
+        // (6) other groupings / orders
+        if np >= 2 {
+            let mut groups: Vec<Vec<usize>> = vec![vec![]; 3];
+            for p in 0..np {
+                let g = if c.partition.is_empty() { p % 3 } else { c.partition[p % c.partition.len()] as usize % 3 };
+                groups[g].push(p);
+            }
+            groups.retain(|g| !g.is_empty());
+            if groups.len() >= 2 {
+                stats.class(&format!("order:partition-into-{}", groups.len()));
+                if let (Some(d), Some((_, fd))) = (gk.sequence(&groups, true, "partition through PatchGroup")?, &full) {
+                    gk.compare_final(fd, &d, "partition through PatchGroup")?;
+                }
+                groups.reverse();
+                if let (Some(d), Some((_, fd))) = (gk.sequence(&groups, false, "reversed partition, low-level")?, &full) {
+                    gk.compare_final(fd, &d, "reversed partition, low-level")?;
+                }
+            }
+            let singles: Vec<Vec<usize>> = perm.iter().map(|p| vec![*p]).collect();
+            if let (Some(d), Some((_, fd))) = (gk.sequence(&singles, c.perm & 1 == 0, "one patch at a time, permuted")?, &full) {
+                gk.compare_final(fd, &d, "one patch at a time, permuted")?;
+            }
+        }
+    }
+
+    // --- evidence
+    let kinds: Vec<&str> = sc.kinds.iter().map(|k| k.name()).collect();
+    stats.class(&format!("tables:{}", kinds.join("+")));
+    stats.class(&format!("patches={np}"));
+    let mut nontrivial = max_k >= 2;
+    let overlap = {
+        let mut cnt: BTreeMap<u32, usize> = BTreeMap::new();
+        for p in &sc.patches {
+            for g in &p.gids {
+                *cnt.entry(*g).or_default() += 1;
+            }
+        }
+        cnt.values().filter(|c| **c >= 2).count()
+    };
+    if overlap > 0 {
+        stats.class("glyphs-shared-between-patches");
+    }
+    if sc.patches.iter().any(|p| p.gids.is_empty()) {
+        stats.class("patch-with-no-glyphs");
+    }
+    if sc.patches.iter().any(|p| p.tables.len() >= 2) {
+        stats.class("patch-with-2+-tables");
+    }
+    if sc.patches.iter().any(|p| p.iftx) && sc.patches.iter().any(|p| !p.iftx) {
+        stats.class("entries-in-IFT-and-IFTX");
+    }
+    for (t, k) in sc.kinds.iter().enumerate() {
+        stats.class(&format!("base:{}:{:?}", k.name(), sc.base_fmt[t]));
+        let rep = sc.new_data[t].len();
+        if rep > 0 && rep < sc.n {
+            stats.class("keeps-and-replaces");
+        }
+        if sc.new_data[t].values().any(|d| d.len() % 2 == 1) {
+            stats.class("odd-length-data");
+        }
+        if sc.new_data[t].values().any(|d| d.is_empty()) {
+            stats.class("empty-data");
+        }
+        let bt: usize = sc.base_glyphs[t].iter().map(|g| g.len()).sum();
+        match &full {
+            Some((_, d)) => {
+                let at: usize = d.glyphs[t].iter().map(|g| g.len()).sum();
+                if d.fmt[t] != sc.base_fmt[t] {
+                    stats.class(&format!("widened:{}:{:?}->{:?}", k.name(), sc.base_fmt[t], d.fmt[t]));
+                }
+                if rep > 0 && rep < sc.n && at != bt {
+                    nontrivial = true;
+                }
+                let thr = match (k, sc.base_fmt[t]) {
+                    (_, Fmt::Short) => Some(SHORT_MAX),
+                    (_, Fmt::Off(1)) => Some(254),
+                    (_, Fmt::Off(2)) => Some(65534),
+                    (_, Fmt::Off(3)) => Some(16_777_214),
+                    _ => None,
+                };
+                if let Some(thr) = thr {
+                    if at.abs_diff(thr) <= 4 {
+                        stats.class(&format!("new-size-within-4-of-limit:{}:{:?}", k.name(), sc.base_fmt[t]));
+                    }
+                }
+                if at > SHORT_MAX && *k == Kind::Glyf {
+                    stats.class("long-glyf-above-short-range");
+                }
+            }
+            None => {
+                stats.class("short-loca-overflow-refused");
+                nontrivial = nontrivial || (rep > 0 && rep < sc.n);
+            }
+        }
+    }
+    if nontrivial {
+        stats.nontrivial(hash_json(c));
+        static GK_SAMPLES: std::sync::atomic::AtomicUsize = std::sync::atomic::AtomicUsize::new(0);
+        if stats.want_sample() && GK_SAMPLES.fetch_add(1, std::sync::atomic::Ordering::Relaxed) < 5 {
+            stats.sample(serde_json::json!({"stage": "glyph-keyed", "glyphs": sc.n, "tables": kinds, "base_formats": format!("{:?}", sc.base_fmt),
+                "patches": sc.patches.iter().map(|p| serde_json::json!({"gids": p.gids.iter().take(12).collect::<Vec<_>>(), "tables": p.tables, "iftx": p.iftx, "bytes": p.bytes.len()})).collect::<Vec<_>>(),
+                "outcome": if full.is_some() { "applied" } else { "OFFSET_OVERFLOW" }, "decoder_calls": calls}));
+        }
+    }
+    Ok(())
+}
+
+// ------------------------------------------------------------------------------------------------------
+// glyph-keyed scenarios: generator
+
+fn base_len_strategy() -> impl Strategy<Value = u16> {
+    prop_oneof![3 => Just(0u16), 5 => 1u16..40, 2 => 40u16..600, 1 => 600u16..5000]
+}
+fn new_len_strategy() -> impl Strategy<Value = u32> {
+    prop_oneof![
+        2 => Just(0u32),
+        3 => (0u32..30).prop_map(|x| 2 * x + 1),
+        3 => (0u32..30).prop_map(|x| 2 * x),
+        2 => 60u32..2000,
+        1 => 2000u32..40000,
+    ]
+}
+fn table_spec(kind: Kind) -> impl Strategy<Value = TableSpec> {
+    (
+        prop_oneof![4 => Just(0u8), 2 => Just(1u8), 1 => Just(2u8), 1 => Just(3u8)],
+        proptest::collection::vec(base_len_strategy(), 1..24),
+        prop_oneof![2 => Just(false), 1 => Just(true)],
+        1u8..=2,
+        0u8..=3,
+        any::<bool>(),
+        0u8..4,
+    )
+        .prop_map(move |(wide, lens, tiny, axes, shared, ooo, gap)| TableSpec { kind, wide, lens, tiny, axes, shared, ooo, gap })
+}
+fn tables_strategy() -> impl Strategy<Value = Vec<TableSpec>> {
+    // bit per Kind (Cff, Cff2, Glyf, Gvar)
+    let mask = prop_oneof![
+        6 => Just(0b0100u8),
+        6 => Just(0b1100u8),
+        1 => Just(0b1000u8),
+        4 => Just(0b0001u8),
+        4 => Just(0b0010u8),
+        1 => Just(0b1010u8),
+        1 => Just(0b1101u8),
+        1 => Just(0b0101u8),
+        1 => Just(0b1111u8),
+    ];
+    (mask, table_spec(Kind::Cff), table_spec(Kind::Cff2), table_spec(Kind::Glyf), table_spec(Kind::Gvar)).prop_map(|(m, a, b, c, d)| [a, b, c, d].into_iter().enumerate().filter(|(i, _)| m & (1 << i) != 0).map(|x| x.1).collect())
+}
+fn pool_glyph() -> impl Strategy<Value = PoolGlyph> {
+    (any::<u32>(), prop_oneof![2 => (0u8..5).prop_map(|b| 1u8 << b), 3 => 1u8..32], [new_len_strategy(), new_len_strategy(), new_len_strategy(), new_len_strategy()]).prop_map(|(gid_raw, mask, lens)| PoolGlyph { gid_raw, mask, lens })
+}
+fn patch_spec() -> impl Strategy<Value = PatchSpec> {
+    (any::<bool>(), prop_oneof![3 => Just(0xFFu8), 2 => 1u8..16], any::<bool>(), prop_oneof![2 => Just(0u8), 1 => any::<u8>()], any::<u16>()).prop_map(|(wide_gids, tables, iftx, slack, split_raw)| PatchSpec { wide_gids, tables, iftx, slack, split_raw })
+}
+fn map_spec() -> impl Strategy<Value = MapSpec> {
+    (
+        prop_oneof![3 => Just(0u8), 3 => Just(1u8), 1 => Just(2u8)],
+        any::<[u32; 4]>(),
+        0u8..4,
+        0u8..4,
+        0u8..3,
+        proptest::collection::vec(0u8..5, 1..4),
+        proptest::collection::vec((any::<bool>(), any::<u16>(), 0u8..4).prop_map(|(iftx, pos_raw, kind)| Decoy { iftx, pos_raw, kind }), 0..4),
+    )
+        .prop_map(|(which, compat, x_word, gap, bias_mode, id_deltas, decoys)| MapSpec { which, compat, x_word, gap, bias_mode, id_deltas, decoys })
+}
+fn plan_strategy() -> impl Strategy<Value = Option<SizePlan>> {
+    let p = (any::<u8>(), prop_oneof![5 => Just(0u8), 3 => Just(1u8), 2 => Just(2u8)], -4i8..=4, any::<bool>(), any::<u32>()).prop_map(|(table_raw, thr, delta, in_base, filler_raw)| SizePlan { table_raw, thr, delta, in_base, filler_raw });
+    prop_oneof![5 => Just(None), 5 => p.prop_map(Some)]
+}
+fn gk_strategy() -> impl Strategy<Value = GkCase> {
+    (
+        (prop_oneof![6 => 1u16..=40, 2 => 41u16..=400, 1 => 401u16..=3000], tables_strategy(), proptest::collection::vec(pool_glyph(), 0..14)),
+        (proptest::option::weighted(0.4, (any::<u32>(), 2u8..12, 1u8..32)), any::<u8>(), proptest::collection::vec(patch_spec(), 1..=5), map_spec(), plan_strategy()),
+        (any::<u64>(), proptest::collection::vec(0u8..3, 5), (any::<u8>(), any::<u8>(), any::<u8>()), (any::<u8>(), any::<u8>()), any::<u32>()),
+    )
+        .prop_map(|((n_glyphs, tables, pool), (run, edge, patches, map, plan), (perm, partition, bad, natural, salt))| GkCase { n_glyphs, tables, pool, run, edge, patches, map, plan, perm, partition, bad, natural, salt, light: false, raw: false })
+}
+
+// ------------------------------------------------------------------------------------------------------
+// table-keyed scenarios
+
+const TK_TAGS: [Tag4; 12] = [*b"tab1", *b"tab2", *b"tab3", *b"tab4", *b"glyf", *b"loca", *b"head", *b"cmap", *b"CFF ", *b"OS/2", *b"zzzz", *b"GSUB"];
+fn tk_tag(i: u8) -> Tag4 {
+    match i % 14 {
+        12 => IFT,
+        13 => IFTX,
+        j => TK_TAGS[j as usize],
+    }
+}
+#[derive(Clone, Debug, Serialize, Deserialize)]
+enum Ins {
+    Lit(Vec<u8>),
+    Pat(u16, u16),
+    Copy(u32, u32),
+}
+#[derive(Clone, Debug, Serialize, Deserialize)]
+struct TkEntry {
+    target: u8,
+    /// 0 diff against the base table, 1 replace, 2 drop
+    mode: u8,
+    prog: Vec<Ins>,
+    slack: u8,
+}
+#[derive(Clone, Debug, Serialize, Deserialize)]
+struct TkCase {
+    /// (tag index, length, seed); first occurrence of a tag wins
+    base: Vec<(u8, u16, u16)>,
+    entries: Vec<TkEntry>,
+    in_iftx: bool,
+    which: u8,
+    /// 1 fully invalidating, 2 partially invalidating
+    format: u8,
+    compat: [u32; 4],
+    x_word: u8,
+    gap: u8,
+    /// glyph-keyed decoy entries: (IFTX?, position, 0 requested / 1 not requested / 2 ignored)
+    decoys: Vec<(bool, u16, u8)>,
+    bad: (u8, u8),
+    natural: (u8, u8),
+    salt: u32,
+}
+
+struct TkScenario {
+    base: Tables,
+    font: Vec<u8>,
+    version: u32,
+    model: Tables,
+    /// (tag, flags, max, stream) as encoded; and per entry the expected result (None = dropped)
+    entries: Vec<(Tag4, u8, u32, Vec<u8>)>,
+    results: Vec<Option<Vec<u8>>>,
+    modes: Vec<u8>,
+    patch: Vec<u8>,
+    tk_cp: u32,
+    tk_in_x: bool,
+    def_cps: Vec<u32>,
+    compat: [u32; 4],
+    compat_x: [u32; 4],
+}
+impl TkScenario {
+    fn build(c: &TkCase) -> TkScenario {
+        let salt = |a: u64, b: u64| mix(mix(c.salt as u64, a), b);
+        let mut base = Tables::new();
+        for (i, len, seed) in &c.base {
+            let tag = tk_tag(*i);
+            if tag != IFT && tag != IFTX {
+                base.entry(tag).or_insert_with(|| pat(salt(*seed as u64, *i as u64), *len as usize));
+            }
+        }
+        base.insert(*b"keep", pat(salt(9, 9), 21));
+        let which = c.which % 3;
+        let tk_in_x = which == 2 || (which == 1 && c.in_iftx);
+        let compat = c.compat;
+        let mut compat_x = compat;
+        compat_x[c.x_word as usize % 4] ^= 0x8000_0001;
+        let fmt = if c.format % 2 == 1 { 1u8 } else { 2 };
+        let mut def_cps = vec![0x52u32];
+        let mut tk_cp = 0;
+        for x in 0..2usize {
+            let present = match which {
+                0 => x == 0,
+                1 => true,
+                _ => x == 1,
+            };
+            if !present {
+                continue;
+            }
+            // items: Some(kind) = decoy, None = the table-keyed entry
+            let mut items: Vec<Option<u8>> = vec![];
+            if tk_in_x == (x == 1) {
+                items.push(None);
+            }
+            for (ix, pos, kind) in &c.decoys {
+                let dx = which == 2 || (which == 1 && *ix);
+                if dx == (x == 1) {
+                    let at = idx((*pos as u32) << 16, items.len() + 1);
+                    items.insert(at, Some(*kind % 3));
+                }
+            }
+            let default_is_tk = tk_in_x == (x == 1) && c.salt & 1 == 1;
+            let default_format = if default_is_tk { fmt } else { 3 };
+            let base_cp = if x == 0 { 0x100u32 } else { 0x300 };
+            let mut entries = vec![];
+            for (j, it) in items.iter().enumerate() {
+                let cp = base_cp + j as u32;
+                let mut e = EntryEnc { cp, format: None, ignored: false, id_delta: if (c.salt as usize >> 3) % 3 == j % 3 { Some((j % 3) as u8) } else { None }, bias_mode: ((c.gap as usize + j) % 3) as u8 };
+                match it {
+                    None => {
+                        if !default_is_tk {
+                            e.format = Some(fmt);
+                        }
+                        tk_cp = cp;
+                        def_cps.push(cp);
+                    }
+                    Some(k) => {
+                        if default_is_tk {
+                            e.format = Some(3);
+                        }
+                        match k {
+                            0 => def_cps.push(cp),
+                            1 => {}
+                            _ => {
+                                e.ignored = true;
+                                def_cps.push(cp);
+                            }
+                        }
+                    }
+                }
+                entries.push(e);
+            }
+            let (cid, tmpl): ([u32; 4], &[u8]) = if x == 0 { (compat, b"t/{id}") } else { (compat_x, b"x/{id}") };
+            base.insert(if x == 0 { IFT } else { IFTX }, encode_map(cid, default_format, tmpl, None, None, c.gap as usize % 4, &entries).bytes);
+        }
+        let version = 0x00010000;
+        let font = sfnt::assemble(version, &base.iter().map(|(t, d)| (*t, d.clone())).collect::<Vec<_>>());
+        // --- patch
+        let mut model = base.clone();
+        let mut seen = BTreeSet::new();
+        let (mut entries, mut results, mut modes) = (vec![], vec![], vec![]);
+        for (i, e) in c.entries.iter().enumerate() {
+            let mut tag = tk_tag(e.target);
+            if e.mode % 3 == 0 && !base.contains_key(&tag) {
+                // a diff needs a base table: retarget to an existing one
+                let have: Vec<Tag4> = base.keys().filter(|t| *t != b"keep").copied().collect();
+                if !have.is_empty() {
+                    tag = have[e.target as usize % have.len()];
+                }
+            }
+            if !seen.insert(tag) || tag == *b"keep" {
+                continue;
+            }
+            let old = base.get(&tag);
+            let mode = match (e.mode % 3, old) {
+                (0, None) => 1,
+                (m, _) => m,
+            };
+            if mode == 2 {
+                model.remove(&tag);
+                let junk = if e.slack & 1 == 1 { pat(salt(7, i as u64), e.slack as usize % 9) } else { vec![] };
+                entries.push((tag, 2u8, 0u32, junk));
+                results.push(None);
+                modes.push(2);
+                continue;
+            }
+            let mut stream = vec![if mode == 0 { b'D' } else { b'R' }];
+            let mut result = vec![];
+            for (k, ins) in e.prog.iter().enumerate() {
+                let lit: Vec<u8> = match (ins, mode) {
+                    (Ins::Lit(b), _) => b.clone(),
+                    (Ins::Pat(l, s), _) => pat(salt(*s as u64, k as u64), *l as usize),
+                    (Ins::Copy(o, l), 0) => {
+                        let old = old.unwrap();
+                        let off = idx(*o, old.len() + 1);
+                        let len = idx(*l, old.len() - off + 1);
+                        stream.push(b'C');
+                        be32(&mut stream, off as u32);
+                        be32(&mut stream, len as u32);
+                        result.extend_from_slice(&old[off..off + len]);
+                        continue;
+                    }
+                    (Ins::Copy(_, l), _) => pat(salt(8, k as u64), (*l >> 26) as usize),
+                };
+                stream.push(b'L');
+                be32(&mut stream, lit.len() as u32);
+                stream.extend_from_slice(&lit);
+                result.extend_from_slice(&lit);
+            }
+            entries.push((tag, if mode == 1 { 1 } else { 0 }, (result.len() + e.slack as usize) as u32, stream));
+            model.insert(tag, result.clone());
+            results.push(Some(result));
+            modes.push(mode);
+        }
+        let patch = encode_tk_patch(if tk_in_x { compat_x } else { compat }, &entries);
+        TkScenario { base, font, version, model, entries, results, modes, patch, tk_cp, tk_in_x, def_cps, compat, compat_x }
+    }
+    fn sibling_font(&self) -> Vec<u8> {
+        let mut t: Vec<(Tag4, Vec<u8>)> = self.base.iter().map(|(t, d)| (*t, d.clone())).collect();
+        for (tag, d) in t.iter_mut() {
+            if *tag == IFT || *tag == IFTX {
+                d[8] ^= 0x10;
+            }
+        }
+        sfnt::assemble(self.version, &t)
+    }
+    fn check_result(&self, out: &[u8], what: &str) -> CaseResult {
+        let got = tables_of(out, what)?;
+        for (i, (tag, _, _, _)) in self.entries.iter().enumerate() {
+            let name = tag_str(tag);
+            match (&self.results[i], got.get(tag)) {
+                (None, Some(_)) => return Err(fail("tk|dropped-present", format!("{what}: table {name} carries the drop flag but is present"))),
+                (None, None) => {}
+                (Some(_), None) => return Err(fail("tk|patched-missing", format!("{what}: patched table {name} is missing"))),
+                (Some(w), Some(g)) => {
+                    if norm(tag, g) != norm(tag, w) {
+                        let kind = if self.modes[i] == 0 { "diff" } else { "replace" };
+                        return Err(fail(&format!("tk|table|{kind}"), format!("{what}: table {name} ({kind}) is not the decoded result: {}", first_diff(g, w))));
+                    }
+                }
+            }
+        }
+        let kg: Vec<String> = got.keys().map(tag_str).collect();
+        let km: Vec<String> = self.model.keys().map(tag_str).collect();
+        if kg != km {
+            return Err(fail("tk|table-set", format!("{what}: tables {kg:?}, expected {km:?}")));
+        }
+        for (tag, w) in &self.model {
+            if norm(tag, &got[tag]) != norm(tag, w) {
+                return Err(fail("tk|untouched-table", format!("{what}: table {} is not in the patch but changed ({})", tag_str(tag), first_diff(&got[tag], w))));
+            }
+        }
+        Ok(())
+    }
+}
+
+fn test_tk(c: &TkCase, stats: &Stats) -> CaseResult {
+    let sc = TkScenario::build(c);
+    let font = FontRef::new(&sc.font).map_err(|e| fail("setup", format!("base font: {e}")))?;
+    let tk_uri_obj = discover(&font, sc.tk_cp, "base")?;
+    let tk_uri = tk_uri_obj.uri_string().map_err(|_| fail("select|query", "uri_string failed"))?;
+    let def = def_of(sc.def_cps.iter().copied());
+    let fresh = |patch: &[u8]| -> Result<(PatchGroup<'_>, HashMap<String, UriStatus>), Fail> {
+        let group = guarded(|| PatchGroup::select_next_patches(font.clone(), &def))?.map_err(|e| fail("select|group", format!("select_next_patches failed: {e}")))?;
+        let uris: Vec<String> = group.uris().map(|s| s.to_string()).collect();
+        if !uris.contains(&tk_uri) {
+            return Err(fail("select|group", format!("the requested table-keyed entry {tk_uri} is not in the group {uris:?}")));
+        }
+        let mut m = HashMap::new();
+        for (i, u) in uris.iter().enumerate() {
+            m.insert(u.clone(), UriStatus::Pending(pat(i as u64, 40)));
+        }
+        m.insert(tk_uri.clone(), UriStatus::Pending(patch.to_vec()));
+        m.insert("zz/unrelated".to_string(), UriStatus::Pending(vec![9]));
+        m.insert("zz/done".to_string(), UriStatus::Applied);
+        Ok((group, m))
+    };
+    let expect_failure = |r: Result<Vec<u8>, PatchingError>, map: Option<(&HashMap<String, UriStatus>, &Snap)>, sig: &str, what: &str| -> CaseResult {
+        if r.is_ok() {
+            return Err(fail(&format!("{sig}|not-an-error"), format!("{what}: the application returned Ok")));
+        }
+        if let Some((m, before)) = map {
+            if snap(m) != *before {
+                return Err(fail(&format!("{sig}|bookkeeping"), format!("{what}: the application failed ({}) but the caller's URI status map changed", r.err().unwrap())));
+            }
+        }
+        Ok(())
+    };
+    // (1) through PatchGroup
+    let (group, mut map) = fresh(&sc.patch)?;
+    let before = snap(&map);
+    let dec = Dec::ok();
+    let out = guarded(|| group.apply_next_patches_with_decoder(&mut map, &dec))?.map_err(|e| fail("tk|unexpected-error", format!("PatchGroup application: {e:?}")))?;
+    let calls = dec.calls.get();
+    sc.check_result(&out, "PatchGroup application")?;
+    let mut want = before.clone();
+    want.insert(tk_uri.clone(), None);
+    if snap(&map) != want {
+        return Err(fail("tk|bookkeeping-on-success", "after success exactly the table-keyed URI becomes Applied"));
+    }
+    // (2) low-level
+    let info = info_of(tk_uri_obj.clone())?;
+    let out2 = guarded(|| font.apply_table_keyed_patch(&info, &sc.patch, &Dec::ok()))?.map_err(|e| fail("tk|unexpected-error", format!("apply_table_keyed_patch: {e:?}")))?;
+    if out2 != out {
+        sc.check_result(&out2, "apply_table_keyed_patch")?;
+        return Err(fail("tk|entry-points-differ", "PatchGroup and apply_table_keyed_patch produce different files"));
+    }
+    stats.evals(2);
+    // (3) faults
+    for k in 0..calls {
+        for (i, ek) in ALL_EK.iter().enumerate() {
+            let what = format!("decoder fails at call {k} with {ek:?}");
+            let (group, mut map) = fresh(&sc.patch)?;
+            let before = snap(&map);
+            let r = guarded(|| group.apply_next_patches_with_decoder(&mut map, &Dec::failing(k, *ek)))?;
+            expect_failure(r, Some((&map, &before)), "fault", &what)?;
+            if (i + k) % 3 == 0 {
+                let r = guarded(|| font.apply_table_keyed_patch(&info, &sc.patch, &Dec::failing(k, *ek)))?;
+                expect_failure(r, None, "fault|low-level", &what)?;
+            }
+            stats.evals(1);
+        }
+    }
+    stats.class_n("faults-injected", (calls * ALL_EK.len()) as u64);
+    // (4) compatibility id
+    let mut bad = sc.patch.clone();
+    let pos = compat_pos(&bad);
+    if c.bad.1 % 2 == 0 {
+        bad[pos + (c.bad.0 as usize % 16)] ^= 1 << (c.bad.1 % 8);
+    } else {
+        let other = if sc.tk_in_x { sc.compat } else { sc.compat_x };
+        for (w, x) in other.iter().enumerate() {
+            bad[pos + 4 * w..pos + 4 * w + 4].copy_from_slice(&x.to_be_bytes());
+        }
+    }
+    let (group, mut map) = fresh(&bad)?;
+    let before = snap(&map);
+    let r = guarded(|| group.apply_next_patches_with_decoder(&mut map, &Dec::ok()))?;
+    expect_failure(r, Some((&map, &before)), "compat", "patch with another compatibility id")?;
+    let r = guarded(|| font.apply_table_keyed_patch(&info, &bad, &Dec::ok()))?;
+    expect_failure(r, None, "compat|low-level", "patch with another compatibility id")?;
+    let sib = sc.sibling_font();
+    let sf = FontRef::new(&sib).map_err(|e| fail("setup", format!("sibling font: {e}")))?;
+    let foreign = info_of(discover(&sf, sc.tk_cp, "sibling")?)?;
+    let r = guarded(|| font.apply_table_keyed_patch(&foreign, &sc.patch, &Dec::ok()))?;
+    expect_failure(r, None, "compat|foreign-info", "PatchInfo from a font with another compatibility id")?;
+    // (5) a decoder failure that is not injected
+    let live: Vec<usize> = (0..sc.entries.len()).filter(|i| sc.results[*i].is_some()).collect();
+    if !live.is_empty() {
+        let j = live[c.natural.0 as usize % live.len()];
+        let mut es = sc.entries.clone();
+        let rl = sc.results[j].as_ref().unwrap().len();
+        match (c.natural.1 % 3, rl) {
+            (0, 1..) => es[j].2 = rl as u32 - 1,
+            (1, _) => es[j].3.push(b'?'),
+            _ => es[j].3[0] = if es[j].3[0] == b'D' { b'R' } else { b'D' },
+        }
+        let bad = encode_tk_patch(if sc.tk_in_x { sc.compat_x } else { sc.compat }, &es);
+        let (group, mut map) = fresh(&bad)?;
+        let before = snap(&map);
+        let what = format!("entry {j} has an undecodable stream (style {})", c.natural.1 % 3);
+        let r = guarded(|| group.apply_next_patches_with_decoder(&mut map, &Dec::ok()))?;
+        expect_failure(r, Some((&map, &before)), "decode-failure", &what)?;
+        stats.class("undecodable-entry");
+    }
+    // --- evidence
+    let kinds: BTreeSet<u8> = sc.modes.iter().copied().collect();
+    for m in &sc.modes {
+        stats.class(["tk:diff", "tk:replace", "tk:drop"][*m as usize]);
+    }
+    stats.class(&format!("tk:entries={}", sc.entries.len().min(5)));
+    stats.class(if c.format % 2 == 1 { "tk:fully-invalidating" } else { "tk:partially-invalidating" });
+    if sc.results.iter().any(|r| r.as_ref().map(|v| v.is_empty()).unwrap_or(false)) {
+        stats.class("tk:empty-result");
+    }
+    if sc.entries.iter().any(|e| e.0 == IFT || e.0 == IFTX) {
+        stats.class("tk:patches-a-mapping-table");
+    }
+    if sc.entries.iter().enumerate().any(|(i, e)| sc.results[i].is_some() && !sc.base.contains_key(&e.0)) {
+        stats.class("tk:adds-a-table");
+    }
+    if map.len() > 3 {
+        stats.class("tk:group-also-offers-glyph-keyed");
+    }
+    if kinds.len() >= 2 {
+        stats.nontrivial(hash_json(c));
+        if stats.want_sample() {
+            stats.sample(serde_json::json!({"stage": "table-keyed", "base_tables": sc.base.keys().map(tag_str).collect::<Vec<_>>(),
+                "entries": sc.entries.iter().enumerate().map(|(i, e)| serde_json::json!({"tag": tag_str(&e.0), "flags": e.1, "stream_len": e.3.len(), "result_len": sc.results[i].as_ref().map(|r| r.len())})).collect::<Vec<_>>(),
+                "format": c.format % 2, "decoder_calls": calls}));
+        }
+    }
+    Ok(())
+}
+
+fn ins_strategy() -> impl Strategy<Value = Ins> {
+    prop_oneof![
+        3 => proptest::collection::vec(any::<u8>(), 0..12).prop_map(Ins::Lit),
+        2 => (0u16..300, any::<u16>()).prop_map(|(l, s)| Ins::Pat(l, s)),
+        1 => (300u16..20000, any::<u16>()).prop_map(|(l, s)| Ins::Pat(l, s)),
+        4 => (any::<u32>(), any::<u32>()).prop_map(|(o, l)| Ins::Copy(o, l)),
+    ]
+}
+fn tk_strategy() -> impl Strategy<Value = TkCase> {
+    (
+        (
+            proptest::collection::vec((0u8..12, prop_oneof![1 => Just(0u16), 4 => 1u16..60, 2 => 60u16..3000], any::<u16>()), 0..8),
+            proptest::collection::vec((0u8..14, prop_oneof![3 => Just(0u8), 3 => Just(1u8), 2 => Just(2u8)], proptest::collection::vec(ins_strategy(), 0..6), any::<u8>()).prop_map(|(target, mode, prog, slack)| TkEntry { target, mode, prog, slack }), 0..7),
+        ),
+        (any::<bool>(), 0u8..3, 1u8..=2, any::<[u32; 4]>(), 0u8..4, 0u8..4),
+        (proptest::collection::vec((any::<bool>(), any::<u16>(), 0u8..3), 0..4), (any::<u8>(), any::<u8>()), (any::<u8>(), any::<u8>()), any::<u32>()),
+    )
+        .prop_map(|((base, entries), (in_iftx, which, format, compat, x_word, gap), (decoys, bad, natural, salt))| TkCase { base, entries, in_iftx, which, format, compat, x_word, gap, decoys, bad, natural, salt })
+}
+
+// ------------------------------------------------------------------------------------------------------
+// the built-in brotli decoder on fixed real streams (whole and truncated)
+
+#[derive(Clone, Debug, Serialize, Deserialize)]
+struct BrCase {
+    /// (stream 0/1, kept length)
+    cut: Option<(u8, u8)>,
+    max_short: bool,
+}
+// shared-brotli streams of font-test-data's table_keyed_patch(): "abcdef\n" -> BR_T1 (with dictionary), BR_T2 (without)
+const BR1: [u8; 23] = [0xa1, 0xe0, 0x00, 0xc0, 0x2f, 0x3a, 0x38, 0xf4, 0x01, 0xd1, 0xaf, 0x54, 0x84, 0x14, 0x71, 0x2a, 0x80, 0x04, 0xa2, 0x1c, 0xd3, 0xdd, 0x07];
+const BR2: [u8; 29] = [
+    0xa1, 0xe8, 0x00, 0xc0, 0xef, 0x48, 0x9d, 0xfa, 0xdc, 0xf1, 0xc2, 0xac, 0xc5, 0xde, 0xe4, 0xf4, 0xb4, 0x02, 0x48, 0x98, 0x98, 0x52, 0x64, 0xa8, 0x50, 0x20, 0x29, 0x75, 0x0b,
+];
+const BR_T1: &[u8] = b"hijkabcdeflmnohijkabcdeflmno\n";
+const BR_T2: &[u8] = b"foobarbaz foobarbaz foobarbaz\n";
+const BR_CASES: u64 = 2 + 23 + 29;
+fn br_case(i: u64) -> BrCase {
+    match i {
+        0 => BrCase { cut: None, max_short: false },
+        1 => BrCase { cut: None, max_short: true },
+        2..=24 => BrCase { cut: Some((0, (i - 2) as u8)), max_short: false },
+        _ => BrCase { cut: Some((1, ((i - 25) % 29) as u8)), max_short: false },
+    }
+}
+fn test_br(c: &BrCase, stats: &Stats) -> CaseResult {
+    let compat = [1u32, 2, 3, 4];
+    let mut base = Tables::new();
+    base.insert(*b"tab1", b"abcdef\n".to_vec());
+    base.insert(*b"tab2", b"foobar\n".to_vec());
+    base.insert(*b"tab3", b"foobaz\n".to_vec());
+    base.insert(*b"tab4", b"unchanged\n".to_vec());
+    base.insert(IFT, encode_map(compat, 1, b"foo/{id}", None, None, 0, &[EntryEnc { cp: 0x100, format: None, ignored: false, id_delta: None, bias_mode: 0 }]).bytes);
+    let font_bytes = sfnt::assemble(0x00010000, &base.iter().map(|(t, d)| (*t, d.clone())).collect::<Vec<_>>());
+    let (mut s1, mut s2) = (BR1.to_vec(), BR2.to_vec());
+    match c.cut {
+        Some((0, l)) => s1.truncate(l as usize),
+        Some((_, l)) => s2.truncate(l as usize),
+        None => {}
+    }
+    let patch = encode_tk_patch(compat, &[(*b"tab1", 0, if c.max_short { 28 } else { 29 }, s1), (*b"tab2", 1, 30, s2), (*b"tab3", 2, 0, vec![])]);
+    let font = FontRef::new(&font_bytes).map_err(|e| fail("setup", format!("{e}")))?;
+    let uri = discover(&font, 0x100, "base")?.uri_string().map_err(|_| fail("select|query", "uri_string failed"))?;
+    let group = guarded(|| PatchGroup::select_next_patches(font.clone(), &def_of([0x100u32])))?.map_err(|e| fail("select|group", format!("{e}")))?;
+    let mut map = HashMap::new();
+    map.insert(uri.clone(), UriStatus::Pending(patch));
+    map.insert("zz/unrelated".to_string(), UriStatus::Pending(vec![1]));
+    let before = snap(&map);
+    match guarded(|| group.apply_next_patches(&mut map))? {
+        Ok(out) => {
+            if c.max_short {
+                return Err(fail("brotli|max-length", "a 29-byte result was accepted under maxUncompressedLength 28"));
+            }
+            if c.cut.is_none() {
+                let got = tables_of(&out, "built-in decoder")?;
+                let mut want = base.clone();
+                want.insert(*b"tab1", BR_T1.to_vec());
+                want.insert(*b"tab2", BR_T2.to_vec());
+                want.remove(b"tab3");
+                if got != want {
+                    return Err(fail("brotli|tables", "tables after the real table-keyed patch differ from the known result"));
+                }
+                stats.nontrivial(hash_json(c));
+            } else {
+                stats.class("brotli:truncated-stream-accepted");
+            }
+            let mut w = before.clone();
+            w.insert(uri, None);
+            if snap(&map) != w {
+                return Err(fail("tk|bookkeeping-on-success", "built-in decoder: after success exactly the applied URI becomes Applied"));
+            }
+        }
+        Err(e) => {
+            if c.cut.is_none() && !c.max_short {
+                return Err(fail("brotli|unexpected-error", format!("the real patch is rejected: {e:?}")));
+            }
+            if snap(&map) != before {
+                return Err(fail("decode-failure|bookkeeping", format!("built-in decoder failed ({e:?}) but the URI status map changed")));
+            }
+            stats.class("brotli:real-decoder-failure");
+            stats.nontrivial(hash_json(c));
+        }
+    }
+    Ok(())
+}
+
+/// the INDEX offSize 3 -> 4 limit (16 MiB of charstrings): a handful of fixed cases, no fault enumeration
+fn big_case(i: u64) -> GkCase {
+    let kind = if i % 2 == 0 { Kind::Cff } else { Kind::Cff2 };
+    let delta = [1i8, 0, -1, 2, 1, 0][i as usize % 6];
+    GkCase {
+        n_glyphs: 3,
+        tables: vec![TableSpec { kind, wide: 0, lens: vec![5, 0, 9], tiny: false, axes: 1, shared: 0, ooo: false, gap: i as u8 }],
+        pool: vec![PoolGlyph { gid_raw: 0x8000_0000, mask: 1, lens: [7, 7, 7, 7] }],
+        run: None,
+        edge: 0,
+        patches: vec![PatchSpec { wide_gids: i % 3 == 0, tables: 0xFF, iftx: false, slack: 0, split_raw: 1 }],
+        map: MapSpec { which: 0, compat: [1, 2, 3, 4], x_word: 0, gap: 0, bias_mode: 0, id_deltas: vec![0], decoys: vec![] },
+        plan: Some(SizePlan { table_raw: 0, thr: 3, delta, in_base: i >= 4, filler_raw: 0 }),
+        perm: i,
+        partition: vec![0],
+        bad: (0, 0, 0),
+        natural: (0, 0),
+        salt: 77 + i as u32,
+        light: true,
+        raw: false,
+    }
+}
+
+/// Deterministic reproductions of the listed findings (shrunk cases of the random stage, `raw` = no avoidance / tolerance).
+const KNOWN_CASES: [&str; 4] = [
+    // regression (fixed in /repo): a gvar table whose glyph data is empty after the application could not be written
+    r#"{"bad":[0,0,0],"edge":128,"light":false,"raw":false,"map":{"bias_mode":0,"compat":[0,0,0,0],"decoys":[],"gap":0,"id_deltas":[0],"which":0,"x_word":0},"n_glyphs":1,"natural":[0,0],"partition":[0,0,0,0,0],"patches":[{"iftx":false,"slack":0,"split_raw":0,"tables":255,"wide_gids":false}],"perm":0,"plan":null,"pool":[],"run":null,"salt":2795404,"tables":[{"axes":1,"gap":0,"kind":"Glyf","lens":[0],"ooo":false,"shared":0,"tiny":false,"wide":0},{"axes":1,"gap":0,"kind":"Gvar","lens":[0],"ooo":false,"shared":0,"tiny":false,"wide":0}]}"#,
+    // regression (fixed in /repo): gvar widening failed with SERIALIZE_ERROR_OUT_OF_ROOM when the old glyph data was smaller than 2*(glyphCount+1) bytes
+    r#"{"bad":[167,189,70],"edge":99,"light":false,"raw":false,"map":{"bias_mode":0,"compat":[0,0,0,0],"decoys":[],"gap":0,"id_deltas":[0],"which":0,"x_word":0},"n_glyphs":5,"natural":[96,54],"partition":[1,1,2,0,1],"patches":[{"iftx":false,"slack":0,"split_raw":0,"tables":255,"wide_gids":false},{"iftx":false,"slack":0,"split_raw":0,"tables":255,"wide_gids":false},{"iftx":false,"slack":0,"split_raw":0,"tables":255,"wide_gids":false}],"perm":1798185695779293192,"plan":{"delta":2,"filler_raw":0,"in_base":false,"table_raw":19,"thr":0},"pool":[{"gid_raw":1717986919,"lens":[0,0,0,1],"mask":4}],"run":null,"salt":153027021,"tables":[{"axes":1,"gap":0,"kind":"Glyf","lens":[0],"ooo":false,"shared":0,"tiny":false,"wide":0},{"axes":1,"gap":0,"kind":"Gvar","lens":[0],"ooo":false,"shared":0,"tiny":false,"wide":0}]}"#,
+    // offsets widened for an intermediate font are never narrowed: table bytes depend on the grouping
+    r#"{"bad":[214,68,170],"edge":0,"light":false,"raw":true,"map":{"bias_mode":2,"compat":[0,0,0,60161242],"decoys":[{"iftx":true,"kind":3,"pos_raw":7013}],"gap":2,"id_deltas":[0,1,0],"which":0,"x_word":2},"n_glyphs":2,"natural":[95,26],"partition":[1,0,2,2,0],"patches":[{"iftx":false,"slack":0,"split_raw":0,"tables":255,"wide_gids":false},{"iftx":false,"slack":0,"split_raw":0,"tables":255,"wide_gids":false}],"perm":4510745566362011458,"plan":{"delta":-4,"filler_raw":556214955,"in_base":false,"table_raw":21,"thr":0},"pool":[{"gid_raw":2147483648,"lens":[0,0,0,0],"mask":2},{"gid_raw":0,"lens":[0,0,0,0],"mask":1}],"run":null,"salt":454001610,"tables":[{"axes":1,"gap":0,"kind":"Glyf","lens":[0],"ooo":false,"shared":0,"tiny":false,"wide":0},{"axes":1,"gap":0,"kind":"Gvar","lens":[40],"ooo":false,"shared":0,"tiny":false,"wide":0}]}"#,
+    // odd-length gvar data keeps its short-offset padding byte after a later widening
+    r#"{"bad":[61,239,117],"edge":84,"light":false,"raw":true,"map":{"bias_mode":0,"compat":[0,23905337,3407452346,680672352],"decoys":[{"iftx":false,"kind":1,"pos_raw":7807},{"iftx":false,"kind":3,"pos_raw":28558},{"iftx":true,"kind":3,"pos_raw":48873}],"gap":3,"id_deltas":[4],"which":0,"x_word":1},"n_glyphs":17,"natural":[23,47],"partition":[1,0,1,0,0],"patches":[{"iftx":false,"slack":0,"split_raw":0,"tables":255,"wide_gids":false},{"iftx":false,"slack":0,"split_raw":0,"tables":255,"wide_gids":false},{"iftx":false,"slack":0,"split_raw":0,"tables":255,"wide_gids":false}],"perm":7513761730047327439,"plan":{"delta":-2,"filler_raw":2575249122,"in_base":true,"table_raw":47,"thr":0},"pool":[{"gid_raw":0,"lens":[0,0,0,0],"mask":4},{"gid_raw":252645136,"lens":[0,0,0,41],"mask":1}],"run":null,"salt":566949067,"tables":[{"axes":1,"gap":0,"kind":"Glyf","lens":[0],"ooo":false,"shared":0,"tiny":false,"wide":0},{"axes":1,"gap":0,"kind":"Gvar","lens":[40],"ooo":false,"shared":0,"tiny":false,"wide":0}]}"#,
+];
+fn known_case(i: u64) -> GkCase {
+    serde_json::from_str(KNOWN_CASES[i as usize % KNOWN_CASES.len()]).expect("known case parses")
+}
+
+fn main() {
+    let ctx = Ctx::from_args("C18");
+    ctx.set_rule("Generated scenarios: synthetic base font (glyf+loca / gvar / CFF / CFF2 in 9 combinations, opaque per-glyph data, short and long offsets, INDEX offSize 1..4, sizes planted within +-4 bytes of the 131070 / 254 / 65534 limits on half of the cases), hand-encoded format-2 IFT/IFTX tables with decoy entries, 1..5 glyph-keyed patches (overlapping glyph sets with equal data, u16/u24 ids, 1..3 tables, lengths 0/odd/even/large) or one table-keyed patch (replace / diff / drop per table), transparent decoder with a fault at call k for every k and every DecodeError kind. Non-trivial: a glyph-keyed application that keeps and replaces glyphs of one table and changes its total size (or is refused for short-loca overflow), or a fault injected at k >= 2; a table-keyed patch with >= 2 entries of different kinds. Distinct by hash of the case.");
+    ctx.assume("the oracle's own sfnt reader (vcore::sfnt) and loca / gvar / INDEX decoders; the library's sparse-bit-set writer is used to encode entry code points; URIs are discovered by querying intersecting_patches with each entry's private code point");
+    ctx.prop_stage("glyph-keyed", Isolation::Threads, ctx.n(24_000, 280_000), gk_strategy, test_gk);
+    ctx.prop_stage("table-keyed", Isolation::Threads, ctx.n(40_000, 500_000), tk_strategy, test_tk);
+    ctx.index_stage("builtin-brotli", Isolation::Threads, BR_CASES, br_case, test_br);
+    ctx.index_stage("cff-offsize-3-to-4", Isolation::Threads, ctx.n(2, 6), big_case, test_gk);
+    ctx.index_stage("known-findings", Isolation::Threads, KNOWN_CASES.len() as u64, known_case, test_gk);
+    ctx.finish();
 }
